@@ -152,6 +152,31 @@ Proof.
   symmetry. eapply wf_resolve_inj; [|exact H1'|exact H2]. now apply intern_wf.
 Qed.
 
+Lemma fold_hops_ext : forall later g, ext g (fold_left hop_apply later g).
+Proof.
+  induction later as [|o later IH]; intros g; cbn [fold_left]; [apply ext_refl|].
+  eapply ext_trans; [apply hop_apply_ext|apply IH].
+Qed.
+
+Lemma resolve_stable_hops : forall (h later : list hop) (x : string),
+    resolve (fold_left hop_apply later (fst (intern (replay h) x))) (snd (intern (replay h) x)) = Some x.
+Proof. intros h later x. eapply resolve_ext; [apply fold_hops_ext|apply intern_resolve]. Qed.
+
+Lemma intern_stable_hops : forall (h later : list hop) (x : string),
+    snd (intern (fold_left hop_apply later (fst (intern (replay h) x))) x) = snd (intern (replay h) x).
+Proof.
+  intros h later x. apply intern_stable; [|apply fold_hops_ext].
+  apply fold_hops_wf. apply intern_wf. apply replay_wf.
+Qed.
+
+Lemma intern_resolve_hist : forall (h : list hop) (x : string),
+    resolve (fst (intern (replay h) x)) (snd (intern (replay h) x)) = Some x.
+Proof. intros h x. exact (intern_resolve (replay h) x). Qed.
+
+Lemma intern_injective_hist : forall (h : list hop) (x y : string),
+    snd (intern (replay h) x) = snd (intern (fst (intern (replay h) x)) y) <-> x = y.
+Proof. intros h x y. exact (intern_injective (replay h) x y (replay_wf h)). Qed.
+
 (* ------------------------------------------------------------------------------------------------ *)
 (* the logical relation: two runs of the same code on two storages                                  *)
 (* ------------------------------------------------------------------------------------------------ *)
